@@ -381,3 +381,193 @@ Definition receive_cfg (s : setup) (y : delivery) : verdict :=
 
 (* the pinned state before 6bdc97cd *)
 Definition receive_cfg_v0 (s : setup) (y : delivery) : verdict := receive (configure (effective_allow_v0 (opt s)) y).
+
+(* ------------------------------------------------------------------------------------------
+   The confirmation METHOD.  [scd] says what a SubjectConfirmation carries; which Method it names is given beside
+   it ([methods], per assertion in document order, per confirmation; a missing entry means bearer, so a delivery
+   without the list is the one of the older layers).  AuthnResponse.get_subject, per confirmation:
+     bearer         -> _bearer_confirmed(data): no data => not used; the rule of b84752ad; came_from looked up;
+     holder-of-key  -> _holder_of_key_confirmed(data): used when the data carries a ds:KeyInfo, else not used;
+     sender-vouches -> used ("pass"); then "_data.recipient": AttributeError when there is no data;
+     anything else  -> ValueError.
+   A confirmation other than bearer leaves came_from alone.  What looks at InResponseTo WITHOUT asking for the
+   method: check_subject_confirmation_in_response_to (loads(), assertions in clear) and its repeat at the head of
+   get_subject (e76039c1, every assertion).  [chk] = the methods whose confirmations that repeat looks at; the
+   code: all of them. *)
+Inductive cm := Bearer | HokKey | HokBare | SenderVouches | OtherMethod.
+
+Record delivery_m := { base : delivery; methods : list (list cm) }.
+
+Fixpoint tag (ms : list cm) (scs : list scd) : list (cm * scd) :=
+  match scs with
+  | [] => []
+  | s :: r => (hd Bearer ms, s) :: tag (tl ms) r
+  end.
+
+Fixpoint tag_assertions (mss : list (list cm)) (l : list assertion_in) : list (list cm * assertion_in) :=
+  match l with
+  | [] => []
+  | a :: r => (hd [] mss, a) :: tag_assertions (tl mss) r
+  end.
+
+Fixpoint split_flags {A} (fl : list bool) (l : list A) : list A * list A :=
+  match l with
+  | [] => ([], [])
+  | a :: r => let pe := split_flags (tl fl) r in
+              if hd false fl then (fst pe, a :: snd pe) else (a :: fst pe, snd pe)
+  end.
+
+(* what the evaluation of one confirmation does *)
+Inductive step := Raise | Skip | Keep (cf : option string).
+
+(* _bearer_confirmed (asynchop = True), the code as it is now *)
+Definition bearer_step (x : input) (cf : option string) (s : scd) : step :=
+  match s with
+  | NoData => Skip
+  | Data d =>
+      if match answered x with Some i => negb (answers i d) | None => false end then Skip else
+      match cf, d with
+      | None, Some j =>
+          if is_empty j then Keep cf else
+          match lookup j (outstanding x) with
+          | Some c => Keep (Some c)
+          | None => if allow_unsolicited x then Keep cf else Raise
+          end
+      | _, _ => Keep cf
+      end
+  end.
+
+Definition other_step (cf : option string) (m : cm) (s : scd) : step :=
+  match m, s with
+  | HokKey, Data _ => Keep cf
+  | HokKey, NoData => Skip
+  | HokBare, _ => Skip
+  | SenderVouches, Data _ => Keep cf
+  | SenderVouches, NoData => Raise
+  | _, _ => Raise
+  end.
+
+Definition conf_step (x : input) (cf : option string) (m : cm) (s : scd) : step :=
+  match m with Bearer => bearer_step x cf s | _ => other_step cf m s end.
+
+Fixpoint confirmations_m (x : input) (cf : option string) (kept : nat) (l : list (cm * scd)) : option (option string * nat) :=
+  match l with
+  | [] => Some (cf, kept)
+  | (m, s) :: r =>
+      match conf_step x cf m s with
+      | Raise => None
+      | Skip => confirmations_m x cf kept r
+      | Keep cf' => confirmations_m x cf' (S kept) r
+      end
+  end.
+
+(* the repeat of the test of loads() at the head of get_subject, over the confirmations whose method [chk] names *)
+Fixpoint sc_all_match_m (chk : cm -> bool) (i : string) (l : list (cm * scd)) : bool :=
+  match l with
+  | [] => true
+  | (_, NoData) :: r => sc_all_match_m chk i r
+  | (m, Data d) :: r => (negb (chk m) || answers i d) && sc_all_match_m chk i r
+  end.
+
+Definition every_method (_ : cm) : bool := true.
+Definition bearer_only (m : cm) : bool := match m with Bearer => true | _ => false end.
+
+Definition one_assertion_m (chk : cm -> bool) (x : input) (cf : option string) (ma : list cm * assertion_in) : option (option string) :=
+  let a := snd ma in
+  if negb (n_authn a =? 1)%nat then None else
+  match subject a with
+  | None => None
+  | Some scs =>
+      let l := tag (fst ma) scs in
+      if match answered x with Some i => negb (sc_all_match_m chk i l) | None => false end then None else
+      match confirmations_m x cf 0 l with
+      | None => None
+      | Some (cf', kept) =>
+          if (kept =? 0)%nat then None else
+          if allow_unsolicited x then Some cf' else
+          match cf' with None => None | Some _ => Some cf' end
+      end
+  end.
+
+Fixpoint all_assertions_m (chk : cm -> bool) (x : input) (cf : option string) (l : list (list cm * assertion_in)) : option (option string) :=
+  match l with
+  | [] => Some cf
+  | a :: l' => match one_assertion_m chk x cf a with
+               | None => None
+               | Some cf' => all_assertions_m chk x cf' l'
+               end
+  end.
+
+Definition accept_sealed_m (chk : cm -> bool) (fl : list bool) (mss : list (list cm)) (x : input) : verdict :=
+  let plain := fst (split_sealed fl (assertions x)) in
+  let enc := snd (split_sealed fl (assertions x)) in
+  let tagged := split_flags fl (tag_assertions mss (assertions x)) in
+  if instance_invalid (with_assertions x plain) then NoId else
+  match loads (with_assertions x plain) with
+  | None => NoId
+  | Some cf =>
+      if negb (version_ok (version x)) then NoId else
+      if negb (String.eqb (status_top x) STATUS_SUCCESS) then StatusErr (status_class (status_second x)) else
+      if negb (count_ok plain enc) then NoId else
+      match all_assertions_m chk x cf (fst tagged ++ snd tagged) with
+      | None => NoId
+      | Some cf' => Identity cf'
+      end
+  end.
+
+(* asynchop = False: _bearer_confirmed uses every bearer confirmation that has data; the other methods as above *)
+Definition back_channel_step (m : cm) (s : scd) : step :=
+  match m with
+  | Bearer => match s with Data _ => Keep None | NoData => Skip end
+  | _ => other_step None m s
+  end.
+
+Fixpoint back_channel_confirmations (kept : nat) (l : list (cm * scd)) : option nat :=
+  match l with
+  | [] => Some kept
+  | (m, s) :: r =>
+      match back_channel_step m s with
+      | Raise => None
+      | Skip => back_channel_confirmations kept r
+      | Keep _ => back_channel_confirmations (S kept) r
+      end
+  end.
+
+Definition back_channel_assertion_m (ma : list cm * assertion_in) : bool :=
+  (n_authn (snd ma) =? 1)%nat
+  && match subject (snd ma) with
+     | None => false
+     | Some scs => match back_channel_confirmations 0 (tag (fst ma) scs) with
+                   | Some kept => negb (kept =? 0)%nat
+                   | None => false
+                   end
+     end.
+
+Definition accept_back_channel_sealed_m (fl : list bool) (mss : list (list cm)) (x : input) : verdict :=
+  let plain := fst (split_sealed fl (assertions x)) in
+  let enc := snd (split_sealed fl (assertions x)) in
+  let tagged := split_flags fl (tag_assertions mss (assertions x)) in
+  if instance_invalid (with_assertions x plain) then NoId else
+  if negb (version_ok (version x)) then NoId else
+  if negb (String.eqb (status_top x) STATUS_SUCCESS) then StatusErr (status_class (status_second x)) else
+  if negb (count_ok plain enc) then NoId else
+  if forallb back_channel_assertion_m (fst tagged ++ snd tagged) then Identity None else NoId.
+
+Definition receive_mf (chk : cm -> bool) (ym : delivery_m) : verdict :=
+  let y := base ym in
+  if negb (unravels (via y)) then NoId else
+  if asynchop (via y) then
+    if destination_ok (via y) (dest y) then accept_sealed_m chk (sealed y) (methods ym) (resp y) else NoId
+  else accept_back_channel_sealed_m (sealed y) (methods ym) (resp y).
+
+Definition receive_m := receive_mf every_method.          (* the code as it is now *)
+Definition receive_m_bearer := receive_mf bearer_only.    (* were the repeat in get_subject to look at bearer confirmations only *)
+
+Definition configure_m (b : bool) (ym : delivery_m) : delivery_m :=
+  {| base := configure b (base ym); methods := methods ym |}.
+
+Definition receive_cfg_m (s : setup) (ym : delivery_m) : verdict :=
+  match effective_allow (opt s) with
+  | Some b => receive_m (configure_m b ym)
+  | None => NoId
+  end.
